@@ -1128,6 +1128,8 @@ class Interp:
         if n.attr == 'grad' and fr.mode == 'tensor' and getattr(fr, 'in_closure', False) and fr.grad is not None:
             return V(fr.grad, 'T')      # `out.grad` / `out[i].grad`: the upstream gradient handed to the closure
         b = self.ev(n.value, env, fr)
+        if b.st and b.st[0] in ('dtypeof', 'dtype') and n.attr in ('kind', 'name', 'itemsize', 'char'):
+            return V(OPAQUE, 'A')       # <dtype>.kind ...: not tracked, a test on it takes both branches
         if b.st and b.st[0] in ('npattr', 'pkgattr'):
             return V(OPAQUE, 'A', b.st + (n.attr,))
         a = n.attr
@@ -1398,9 +1400,16 @@ class Interp:
             arg(1)
             return V(('AsArray', arg(0).e), 'A')
         if name in self.NP_VIEW and n.args:
+            if 'dtype' in kws:
+                self.U(fr, n, "np.%s(dtype=...)" % name)
             evall()
             return V(('View', arg(0).e), 'A')
         if name in self.NP_TOARR and n.args:
+            if 'dtype' in kws:
+                if name != 'ascontiguousarray' or len(n.args) != 1 or set(kws) != {'dtype'}:
+                    self.U(fr, n, "np.%s(dtype=...)" % name)
+                dt = self.dtype_kw(kws['dtype'], env, fr)      # np.ascontiguousarray(a, dtype=D): a fresh array of dtype D
+                return V(('ToArr', arg(0).e) if dt is None else ('Astype', ('ToArr', arg(0).e), dt), 'A')
             evall()
             return V(('ToArr', arg(0).e), 'A')
         if name in ('concatenate', 'stack') and len(n.args) == 1 and set(kws) <= {'axis'}:
